@@ -523,7 +523,8 @@ class NDNApp:
             raise ValueError(f'Duplicated registration: {Name.to_str(name)}')
         node.callback = func
         node.extra_param = {'raw_packet': need_raw_packet, 'sig_ptrs': need_sig_ptrs}
-        if validator:
+        if validator is not None:
+            # (a validator may be a callable object that is falsy, e.g. an empty policy collection)
             node.validator = validator
 
     def unset_interest_filter(self, name: NonStrictName):
@@ -583,7 +584,7 @@ class NDNApp:
         # In case the validator blocks the pipeline, create a task
         async def submit_interest():
             if sig.signature_info is not None:
-                validator = node.validator if node.validator else self.int_validator
+                validator = node.validator if node.validator is not None else self.int_validator
                 valid = await validator(name, sig)
             else:
                 valid = True
